@@ -294,7 +294,10 @@ func (e *evidence) write(path string) error {
 	}
 	mode := "fine (every goroutine switch and map order decided by the simulator)"
 	if len(audit) > 0 {
-		mode = "coarse for the listed constructs (not owned by the simulator)"
+		mode = "fine; the listed constructs are not owned by the simulator"
+	}
+	if d.sites.Coarse {
+		mode = "COARSE: library code starts goroutines / uses channels (" + strings.Join(d.sites.CoarseReasons, "; ") + "): operations are atomic scheduler steps, no interleaving of callers is explored; map-order, history, aliasing and package-state checks still apply"
 	}
 	rule := "Scenario i is a pure function of (VERIF_SEED, i): family, sources, operations, options, map-order fault and schedule seed are drawn from splitmix(VERIF_SEED,i). " +
 		"A scenario is counted in distinct_nontrivial when its (operations, options, faults, recorded switch sequence) hash is new AND at least one of: " +
